@@ -250,6 +250,13 @@ def run_property(modname: str, tier: str, seed: int, update_ledger: bool = False
         except DidNotTerminate:
             extra_results = [{"name": f"{prop}-standins", "kind": "bounded stand-ins", "evaluations": 0, "violation": False,
                               "fault": f"the bounded stand-ins did not finish within {deadline} s (does the code under check still terminate?)"}]
+        except Exception as ex:  # noqa: BLE001
+            # a stand-in that trips over the code under check must not take the verdicts of the proof part with it:
+            # reported as a fault of that stand-in (exit 3 unless a violation is reported), everything else is still printed
+            import traceback
+
+            extra_results = [{"name": f"{prop}-standins", "kind": "bounded stand-ins", "evaluations": 0, "violation": False,
+                              "fault": f"a bounded stand-in crashed: {type(ex).__name__}: {ex}"[:300] + " | " + traceback.format_exc().strip().splitlines()[-3][:160]}]
         for e in extra_results:
             standins.append(e)
             if e.get("violation") and not e.get("known"):
